@@ -37,13 +37,16 @@ Fine(p, a) ==
     \/ a = "RecvClosed" /\ RecvClosed(p)
     \/ a = "Construct" /\ Construct(p)
     \/ a = "ConstructPanics" /\ ConstructPanics(p)
+    \/ a = "CallDep" /\ CallDep(p)
+    \/ a = "ReturnDep" /\ ReturnDep(p)
+    \/ a = "AcquireSlot" /\ AcquireSlot(p)
     \/ a = "StoreCached" /\ StoreCached(p)
     \/ a = "Close" /\ Close(p)
     \/ a = "ReadCached" /\ ReadCached(p)
     \/ a = "Return" /\ Return(p)
 
 Names == {"Start", "LoadHit", "LoadMiss", "LoadOrStore", "RecvToken", "RecvClosed",
-          "Construct", "ConstructPanics", "StoreCached", "Close", "ReadCached", "Return"}
+          "Construct", "ConstructPanics", "CallDep", "ReturnDep", "AcquireSlot", "StoreCached", "Close", "ReadCached", "Return"}
 
 (* Where p stops after fine action a ("" = it keeps running).  Evaluated on    *)
 (* the successor state.                                                        *)
@@ -51,6 +54,7 @@ StopAfter(p, a) ==
     IF a = "LoadMiss" THEN "once.miss"
     ELSE IF a = "LoadOrStore" THEN "once.stored"
     ELSE IF a = "RecvToken" THEN "construct"
+    ELSE IF a = "ReturnDep" THEN "construct2"   \* the second gate inside the constructor, after its nested Get
     ELSE IF a \in {"Return", "ConstructPanics"} THEN "done"   \* a panicked Get has ended, too (val = -1)
     ELSE IF pc'[p] = "call" /\ chan'[ldr'[p]] = "empty" THEN "blocked"
     ELSE ""
@@ -103,7 +107,7 @@ StuckSet == {p \in waiting : ldr[p] \in failed}
 Complete == run = 0 /\ \A p \in Procs : Finished(p) \/ p \in StuckSet
 
 Emit == Complete =>
-          CSVWrite("%1$s", <<ToJson([np |-> Cardinality(Procs), plan |-> plan, zero |-> zk, panic |-> pk,
+          CSVWrite("%1$s", <<ToJson([np |-> Cardinality(Procs), plan |-> plan, zero |-> zk, panic |-> pk, dep |-> Dep,
                                      stuck |-> SetToSeq(StuckSet), steps |-> hist])>>,
                    IF pk = {} THEN OutFile ELSE OutFileP)
 
